@@ -162,8 +162,8 @@ def generate(rng, tier, index, focus):
     spec["ops"] = ops
     spec["focus"] = focus
     # history beyond this container: in 40% of the runs a *decoy* scene with the same object names is placed and applied first
-    # in the same process, with every source / detector moved so that its relation to the devices is the opposite (disjoint
-    # <-> inside); anything the library remembers per object name across placements would then be stale for the real scene
+    # in the same process, with every device shrunk to a single voxel in a corner that touches no source or detector;
+    # anything the library remembers per object name across placements would then be stale for the real scene
     spec["prior_scene_same_names"] = bool(rng.uniform() < 0.4)
     return spec
 
@@ -234,21 +234,36 @@ def execute(spec, focus):
 
         decoy = _copy.deepcopy(spec)
         shp = spec["shape"]
-        for o in decoy["sources"] + decoy["detectors"]:
-            hits = any(all(max(a0, b0) < min(a1, b1) for (a0, a1), (b0, b1) in zip(o["box"], dv["box"])) for dv in spec["devices"])
-            if hits:  # move it into the x = 0 column (probe cells only, outside every device)
-                size = [b[1] - b[0] for b in o["box"]]
-                o["box"] = [[0, min(size[0], 1)], [0, min(size[1], shp[1])], [0, min(size[2], shp[2])]] if o.get("kind") == "dipole" or size[0] == 1 else None
-            else:  # move a (one-cell) copy into the first device
-                dv = spec["devices"][0]["box"]
-                o["box"] = [[dv[a][0], dv[a][0] + 1] for a in range(3)] if o.get("kind") in ("dipole", "field") else None
-        decoy["sources"] = [o for o in decoy["sources"] if o["box"] is not None]
-        decoy["detectors"] = [o for o in decoy["detectors"] if o["box"] is not None]
+
+        def _hits(b1, b2):
+            return all(max(a0, b0) < min(a1, b1_) for (a0, a1), (b0, b1_) in zip(b1, b2))
+
+        # the decoy keeps every source and detector where it is and shrinks each device to one voxel in a corner that touches
+        # none of them: whatever is remembered per (device name, object name) then says "independent of the device"
+        taken = [o["box"] for o in spec["sources"] + spec["detectors"]]
+        ok_decoy = True
+        for dv in decoy["devices"]:
+            v = dv["voxel"]
+            spot = None
+            for cx in (1, shp[0] - v[0]):
+                for cy in (0, shp[1] - v[1]):
+                    for cz in (0, shp[2] - v[2]):
+                        cand = [[cx, cx + v[0]], [cy, cy + v[1]], [cz, cz + v[2]]]
+                        if cx >= 1 and all(c[1] <= n for c, n in zip(cand, shp)) and not any(_hits(cand, t) for t in taken):
+                            spot = spot or cand
+            if spot is None:
+                ok_decoy = False
+                break
+            dv["box"] = spot
+            taken.append(spot)
+        if not ok_decoy:
+            decoy = None
         try:
-            dsc = sc.build_scene(decoy, apply=False)
-            dparams = {dv["name"]: jnp.asarray(dvm.make_params(dv, 1), dtype=jnp.float64) for dv in decoy["devices"]}
-            fdtdx.apply_params(dsc.arrays, dsc.objects, dparams, dsc.key)
-            prior_fired = 1
+            if decoy is not None:
+                dsc = sc.build_scene(decoy, apply=False)
+                dparams = {dv["name"]: jnp.asarray(dvm.make_params(dv, 1), dtype=jnp.float64) for dv in decoy["devices"]}
+                fdtdx.apply_params(dsc.arrays, dsc.objects, dparams, dsc.key)
+                prior_fired = 1
         except NotImplementedError:
             pass
     try:
